@@ -214,6 +214,87 @@ Proof.
     exists st'. split; [exact H1|]. split; [exact H2 | left; exact H3].
 Qed.
 
+(* ---- sequences of calls: any interleaving of atomic steps -------------------------------------- *)
+(* Every chronicler method runs under c.mu, so a concurrent execution is some sequence of steps. *)
+Lemma wr_apply_lookup : forall k ix w,
+  ilookup k (wr_apply ix w) = if fst w =? k then snd w else ilookup k ix.
+Proof.
+  intros k ix [k' [v|]]; unfold wr_apply; cbn [fst snd].
+  - destruct (k' =? k) eqn:E.
+    + apply N.eqb_eq in E; subst. apply ilookup_iset_same.
+    + apply N.eqb_neq in E. apply ilookup_iset_other. congruence.
+  - destruct (k' =? k) eqn:E.
+    + apply N.eqb_eq in E; subst. apply ilookup_idel_same.
+    + apply N.eqb_neq in E. apply ilookup_idel_other. congruence.
+Qed.
+
+Lemma spec_apply_cons : forall ix w t, spec_apply ix (w :: t) = spec_apply (wr_apply ix w) t.
+Proof.
+  intros. unfold spec_apply. cbn [map fold_left]. rewrite apply_wr_entry. reflexivity.
+Qed.
+
+Lemma spec_apply_app : forall ix a b, spec_apply ix (a ++ b) = spec_apply (spec_apply ix a) b.
+Proof.
+  intros ix a; revert ix; induction a as [|w t IH]; intros ix b; [reflexivity|].
+  rewrite <- app_comm_cons, !spec_apply_cons. apply IH.
+Qed.
+
+(* the value of a key after a batch depends only on its value before *)
+Lemma spec_apply_lookup_congr : forall k l a b,
+  ilookup k a = ilookup k b -> ilookup k (spec_apply a l) = ilookup k (spec_apply b l).
+Proof.
+  intros k l; induction l as [|w t IH]; intros a b H; [exact H|].
+  rewrite !spec_apply_cons. apply IH. rewrite !wr_apply_lookup. rewrite H. reflexivity.
+Qed.
+
+(* ... and only on the writes to that key: two write orders with the same per-key subsequences
+   (e.g. any interleaving of writers that own disjoint key sets) give the same state *)
+Lemma spec_apply_lookup_filter : forall k l ix,
+  ilookup k (spec_apply ix l) = ilookup k (spec_apply ix (filter (fun w : wr => fst w =? k) l)).
+Proof.
+  intros k l; induction l as [|w t IH]; intros ix; [reflexivity|].
+  cbn [filter]. destruct (fst w =? k) eqn:E.
+  - rewrite !spec_apply_cons. apply IH.
+  - rewrite spec_apply_cons, IH. apply spec_apply_lookup_congr.
+    rewrite wr_apply_lookup, E. reflexivity.
+Qed.
+
+Fixpoint run_steps (c : chron) (es : list ep) : chron :=
+  match es with [] => c | e :: t => run_steps (step true c e) t end.
+
+Fixpoint steps_cover (c : chron) (es : list ep) : Prop :=
+  match es with
+  | [] => True
+  | e :: t =>
+    match state_of (c_fs c) with
+    | Some st => covers (ep_perm e) (spec_apply (fst st) (ep_batch e))
+    | None => True
+    end /\ steps_cover (step true c e) t
+  end.
+
+Lemma state_of_good : forall s st, state_of s = Some st ->
+  exists h es, hyd s = Some (FGood h es) /\ load_entries h es = st.
+Proof.
+  intros s st H. unfold state_of in H. destruct (hyd s) as [[h es|h es|]|]; simpl in H; try discriminate.
+  inversion H. eauto.
+Qed.
+
+Theorem any_interleaving_preserves : forall es c st,
+  state_of (c_fs c) = Some st -> steps_cover c es ->
+  exists st', state_of (c_fs (run_steps c es)) = Some st' /\
+    forall k, ilookup k (fst st') = ilookup k (spec_apply (fst st) (flat_map ep_batch es)).
+Proof.
+  induction es as [|e t IH]; intros c st Hs Hc.
+  - exists st. split; [exact Hs | intros; reflexivity].
+  - destruct Hc as [Hc1 Hc2]. rewrite Hs in Hc1.
+    destruct (state_of_good _ _ Hs) as [h [es0 [Hh Hl]]].
+    pose proof (any_entry_point_preserves c e h es0 Hh) as P. simpl in P. rewrite Hl in P.
+    destruct (P Hc1) as [st1 [H1 [H2 _]]].
+    destruct (IH (step true c e) st1 H1 Hc2) as [st' [H3 H4]].
+    exists st'. split; [exact H3|]. intros k. rewrite H4.
+    cbn [flat_map]. rewrite spec_apply_app. apply spec_apply_lookup_congr. apply H2.
+Qed.
+
 (* the hypothesis is satisfiable and the theorem is not vacuous: a fragmented file with a
    deleted key, a stale temp holding that key under a foreign name, compaction through the CLI *)
 Definition ex_file : fimg :=
